@@ -87,7 +87,7 @@ fn cmd_check(args: &[String]) -> i32 {
         seed,
         runs,
         workers: workers(),
-        run_timeout: Duration::from_millis(env_u64("VSIM_RUN_TIMEOUT_MS").unwrap_or(if tier == Tier::Thorough { 300_000 } else { 90_000 })),
+        run_timeout: Duration::from_millis(env_u64("VSIM_RUN_TIMEOUT_MS").unwrap_or(if tier == Tier::Thorough { 420_000 } else if ps.profile == "crash" { 240_000 } else { 120_000 })),
         batch_budget: Duration::from_secs(if tier == Tier::Thorough { 1500 } else { 150 }),
         level: ps.level.to_string(),
         also_owns: ps.also.iter().map(|x| x.to_string()).collect(),
